@@ -172,9 +172,13 @@ def run_quality_kernel(rep, prog):
     st.pc.append(z3.And(*[z3.ULT(b, 128) for b in qs.bytes]))
     mt = media_type(it, mt_name(name_code('text')), mt_name(name_code('plain')), None,
                     [(mt_name(name_code('q')), Agg('mediatype::Value', (qs,)))])
-    fn = find_fn(prog, 'mime_quality_inner', inpath='::server::runtime::')
+    # the kernel is entered at `mime_quality` (u32, 1000 when q is absent or not a qvalue); `mime_quality_inner` is an
+    # implementation detail that a refactoring may remove
+    from mirsym.harness import find_fns
+    fn = find_fn(prog, 'mime_quality', inpath='::server::runtime::')
     valid, val = q1000_ref(qs)
-    for s2, rv in it.run(fn, [st.ref(mt)], st):
+    for s2, rv0 in it.run(fn, [st.ref(mt)], st):
+        rv = rv0 if is_abnormal(rv0) else it.some(rv0)
         rep.states += 1
         if isinstance(rv, Unwind):
             rep.inconc(f'C11 quality kernel: unwind {rv.where}')
